@@ -203,6 +203,9 @@ func fill(r gen.R, v reflect.Value, vals rm.Vals, zeroDates bool) {
 		case tAddrPort:
 			ipv := r.IP()
 			port := uint16(r.Pick(65536))
+			if r.Pick(8) == 0 {
+				ipv, port = rm.IPVal(0, 0, 0, 0), []uint16{0, 0, 60001}[r.Pick(3)] // 0.0.0.0:0 is an address and a port like any other ("no listener")
+			}
 			set(reflect.ValueOf(netip.AddrPortFrom(netip.AddrFrom4([4]byte{ipv.B[0], ipv.B[1], ipv.B[2], ipv.B[3]}), port)))
 			vals[name] = rm.Val{K: rm.AddrPort, B: ipv.B, U: uint64(port)}
 		default:
